@@ -89,14 +89,19 @@ PROPS = {
     "C15": dict(
         functions=[SP + "StatisticalContinuumSampler.sample_from_continuum", SP + "AbstractContinuumSampler._has_been_init",
                    SP + "StatisticalContinuumSampler._set_nb_units_information", SP + "StatisticalContinuumSampler._set_duration_information",
+                   SP + "StatisticalContinuumSampler._set_categories_information", SP + "StatisticalContinuumSampler._set_gap_information",
                    SP + "AbstractContinuumSampler.init_sampling#given", SP + "AbstractContinuumSampler.init_sampling#default"]
                   + [CT + "Continuum." + m for m in ("copy_flush", "add", "add_annotator", "__bool__")] + [CT + "Unit.__lt__"],
         lawtags=True,
         oracles=[SP + "StatisticalContinuumSampler.sample_from_continuum"],
         bounded=[dict(oracle=SP + "StatisticalContinuumSampler.sample_from_continuum",
                       what="_set_nb_units_information and _set_duration_information are proved (mean / np.std of exactly the reference's per-annotator "
-                           "counts / unit durations); init_sampling, init_sampling_custom, _set_gap_information and "
-                           "_set_categories_information are not under a deductive contract (law tags only): measured parameters "
+                           "counts / unit durations), _set_categories_information too (the reference's categories in alphabetical order, each "
+                           "weighted by the fraction of the reference's units carrying it; for references whose units are all labelled) and "
+                           "_set_gap_information (np.mean / np.std of a list that starts with 0 and otherwise holds only distances between two "
+                           "units adjacent in iteration order of one annotator, or positive first starts; that EVERY such gap is in the list "
+                           "is not stated); the statistical sampler's own init_sampling and init_sampling_custom "
+                           "are not under a deductive contract (law tags only): measured parameters "
                            "against numpy on random references, 40 seeded draws per case: validity clauses again, plus a loose 6-standard-error "
                            "check of the mean duration")],
         design_ref="DESIGN.md section 4 C15",
